@@ -1667,6 +1667,12 @@ class PyCdlib:
             self.enhanced_vd.root_directory_record().data_length = self.pvd.root_directory_record().data_length
 
         if self.udf_anchors:
+            # The last anchor has to be on the last extent of the volume.  The
+            # tracked volume size may include an extent or two of slack (space
+            # that was accounted for once and is no longer used), so place the
+            # anchor by the volume size, not right after the last thing
+            # assigned.
+            current_extent = max(current_extent, self.pvd.space_size - 1)
             self.udf_anchors[-1].set_extent_location(current_extent,
                                                      self.udf_main_descs.pvds[0].extent_location(),
                                                      self.udf_reserve_descs.pvds[0].extent_location())
